@@ -4,7 +4,7 @@ P=$1; T=${2:-/tmp/repo_head}
 git -C $T apply $P || { echo "PATCH DOES NOT APPLY"; exit 2; }
 O=$(mktemp -d /tmp/deveval.XXXXXX)
 for n in 01 02 03 04 05 06 07 08 09 10 11 12 13 14 15 16 17 18 19 20; do
-  ( cd /verif; VERIF_REPO=$T VERIF_NO_EVIDENCE=1 VERIF_OUT=$O/o$n /venv/bin/python -m verifstat check C$n > $O/C$n.log 2>&1; rc=$?
+  ( cd /verif; VERIF_JOBS=${VERIF_JOBS:-3} VERIF_NO_SHARED=${VERIF_NO_SHARED:-} VERIF_REPO=$T VERIF_NO_EVIDENCE=1 VERIF_OUT=$O/o$n /venv/bin/python -m verifstat check C$n > $O/C$n.log 2>&1; rc=$?
     if [ $rc -ne 0 ]; then echo "C$n exit=$rc rules: $(grep '^  C' $O/C$n.log | sed 's/^  \(C[0-9][0-9]\.[a-z0-9-]*\).*/\1/' | sort | uniq -c | tr '\n' ';') $(grep ANALYSIS-ERROR $O/C$n.log | head -1 | cut -c1-200)"; fi ) &
 done; wait
 git -C $T checkout -- .
